@@ -162,6 +162,10 @@ def bad_values(draw, t):
     k = t["k"]
     if k in R.INTS:
         lo, hi = R.INT_RANGE[k]
+        if draw(st.integers(0, 5)) == 0:
+            # an integral float: equal to (and hashing like) a valid int, still not an integer
+            n = draw(st.one_of(st.sampled_from([0, 1, 7, 100, hi, lo]), st.integers(max(lo, -(2 ** 31)), min(hi, 2 ** 31))))
+            return (-0.0 if n == 0 and draw(st.booleans()) else float(n)), "float-integral"
         return draw(st.sampled_from([(hi + 1, "range+1"), (lo - 1, "range-1"), (2 ** 70, "huge"), (-(2 ** 70), "huge"),
                                      (1.5, "float"), (None, "none"), ("1", "str"), (b"\x01", "bytes"), ([1], "list")]))
     if k in R.FLOATS:
@@ -283,10 +287,27 @@ def _materialise(t, v):
     return v
 
 
+def _int_twin(v):
+    """the same value with every integral float replaced by the int it equals; (twin, changed)"""
+    if isinstance(v, float) and v == v and abs(v) != float("inf") and v == int(v):
+        return int(v), True
+    if isinstance(v, list):
+        parts = [_int_twin(x) for x in v]
+        return [p[0] for p in parts], any(p[1] for p in parts)
+    return v, False
+
+
 def check_encode_bad(t, v, label):
     from pycomm3.exceptions import DataError
     sig = kind_sig(t)
     v = _materialise(t, v)
+    twin, changed = _int_twin(v)
+    if changed:
+        # the refusal must not depend on what was encoded before: encode the equal, valid int value first
+        try:
+            C.lib_encode(t, twin) if t["k"] not in ("STRINGI", "DATE_AND_TIME") else _encode_star(t, twin)
+        except Exception:
+            pass
     try:
         out = C.lib_encode(t, v) if t["k"] not in ("STRINGI", "DATE_AND_TIME") else _encode_star(t, v)
     except DataError:
